@@ -168,11 +168,16 @@ class Ctx:
         for lab in res.get("labels", []):
             self.labels[lab] += 1
         if res.get("nontrivial"):
-            key = res.get("key")
-            h = case_hash(key if key is not None else case)
-            if h not in self.nontrivial and len(self.nontrivial_samples) < 3:
-                self.nontrivial_samples.append(jsonable(case))
-            self.nontrivial.add(h)
+            keys = res.get("keys")
+            if keys is None:
+                key = res.get("key")
+                keys = [key if key is not None else case]
+            ch = case_hash(case)
+            for key in keys:
+                h = case_hash(key) if key is not case else ch
+                if h not in self.nontrivial and len(self.nontrivial_samples) < 3:
+                    self.nontrivial_samples.append(jsonable(case))
+                self.nontrivial.add(h)
         if len(self.samples) < 2:
             self.samples.append(jsonable(case))
 
